@@ -121,3 +121,64 @@ func Touch(kind OpKind, cell *uint64) {
 		*cell = mix(*cell, t.hb)
 	}
 }
+
+// VarHook, when set by a harness, is called at the marks the instrumenter puts around every statement that mentions a
+// package-level variable (VarPre before it, VarPost after it; name is "package.variable"). Nothing happens without a
+// hook, or outside a controlled execution.
+var VarHook func(post bool, name string)
+
+//go:norace
+func VarPre(name string) {
+	if h := VarHook; h != nil {
+		if s := inSched(); s != nil && s.cur != nil && !s.aborting {
+			h(false, name)
+		}
+	}
+}
+
+//go:norace
+func VarPost(name string) {
+	if h := VarHook; h != nil {
+		if s := inSched(); s != nil && s.cur != nil && !s.aborting {
+			h(true, name)
+		}
+	}
+}
+
+// WaitUntil parks the running controlled thread until cond holds. The hand-off is invisible to the race detector and
+// announces no happens-before edge: it is a device of the harness (directed schedules), not a synchronisation of the
+// code under test. cond is evaluated by the scheduler whenever it picks the next thread. The wait is soft: when no
+// thread at all could run any more, the waiter is released and WaitUntil returns false.
+//
+//go:norace
+func WaitUntil(cell *uint64, cond func() bool) bool {
+	s := inSched()
+	if s == nil || s.cur == nil {
+		return true
+	}
+	if s.aborting {
+		panic(abortPanic{})
+	}
+	t := s.cur
+	t.soft, t.giveUp = true, false
+	s.point(OpYield, cell, softCond(t, cond))
+	ok := !t.giveUp
+	t.soft, t.giveUp = false, false
+	return ok
+}
+
+//go:norace
+func softCond(t *thread, cond func() bool) func() bool {
+	return func() bool { return t.giveUp || cond() }
+}
+
+// ThreadFinished reports whether the controlled thread with that identity has run to its end.
+//
+//go:norace
+func ThreadFinished(id int) bool {
+	s := inSched()
+	if s == nil || id < 0 || id >= len(s.threads) {
+		return false
+	}
+	return s.threads[id].finished
+}
